@@ -28,7 +28,10 @@ def run_cell(item):
     sh = tuple(c["sh"])
     nx = int(np.prod(sh)) if sh else 1
     vals = [math.log(_q(el["q"])) if el["k"] == "log" else float(_q(el["q"])) for el in c["x"]]
-    x = mg.tensor(np.array(vals[:nx], dtype=np.float64).reshape(sh))
+    xa = np.array(vals[:nx], dtype=np.float64).reshape(sh)
+    if "off" in c:      # per-row shifts (rows along axis 0): the functions of these cells are invariant under them
+        xa = xa + np.array(c["off"][: sh[0]], dtype=np.float64).reshape((sh[0],) + (1,) * (len(sh) - 1))
+    x = mg.tensor(xa)
     extra = []
     if f == "sigmoid":
         out = mg.nnet.activations.sigmoid(x)
